@@ -145,14 +145,22 @@ _JSON_PASS = {"JSONEncoder", "JSONDecoder", "JSONDecodeError", "encoder", "decod
 _FORBIDDEN_MODULES = {"shutil", "tempfile", "pathlib", "io", "glob", "pickle", "fcntl", "mmap", "subprocess"}
 
 
+class Unwind(BaseException):
+    """death of the process by an exception raised at a crash point (a second Ctrl-C, an error inside the encoder): unlike a kill, the
+    interpreter unwinds the stack first, so `finally:` clauses and context managers of the code under contract still run - with the
+    file system alive - before the process ends"""
+
+
 class _FS:
     """event accounting + stub construction shared by GhostFS and RealFS"""
 
-    def __init__(self, steps=2, crash_at=None):
+    def __init__(self, steps=2, crash_at=None, death="kill"):
         if steps < 2:
             raise ValueError("a dump is modelled as >= 2 partial writes")
         self.steps = int(steps)
         self.crash_at = crash_at
+        self.death = death            # 'kill': nothing runs after the crash point; 'unwind': an exception propagates from it
+        self.unwound = False
         self.crashed = False
         self.events = []
         self.unmodelled = []
@@ -162,7 +170,10 @@ class _FS:
     def _ev(self, kind, *args):
         if self.crashed:
             raise Crash("process is dead")
-        if self.crash_at is not None and len(self.events) == self.crash_at:
+        if self.crash_at is not None and len(self.events) == self.crash_at and not self.unwound:
+            if self.death == "unwind":
+                self.unwound = True
+                raise Unwind("exception raised at crash point %d (before %s%r)" % (self.crash_at, kind, args))
             self.crashed = True
             raise Crash("crash point %d (before %s%r)" % (self.crash_at, kind, args))
         self.events.append((kind,) + tuple(args))
@@ -396,8 +407,8 @@ class GhostFile:
 class GhostFS(_FS):
     """files: normalised path -> (kind, contents) with contents a tuple of opaque tokens (one token unless mixed)"""
 
-    def __init__(self, steps=2, crash_at=None):
-        super().__init__(steps, crash_at)
+    def __init__(self, steps=2, crash_at=None, death="kill"):
+        super().__init__(steps, crash_at, death)
         self.files = {}
         self._handles = {}
         self._before_open = {}
@@ -554,8 +565,8 @@ class RealFS(_FS):
     text; when the crash strikes after the last slice but before close, the final byte is withheld (that is
     the user-space buffer a dying process loses) so that the realisation of `partial` is a strict prefix."""
 
-    def __init__(self, steps=2, crash_at=None):
-        super().__init__(steps, crash_at)
+    def __init__(self, steps=2, crash_at=None, death="kill"):
+        super().__init__(steps, crash_at, death)
         self._real_handles = []
 
     def _open(self, p, m, mode, a, kw):
